@@ -139,6 +139,41 @@ def o_profile(ctx):
         ctx.claim('stability-range-empty', stab == (None, None))
 
 
+def o_summary_lines(ctx):
+    """get_folding_profile_section states the optimum, the 80 % range and the stability range exactly when
+    get_folding_profile determined them -- whatever their values (an optimum at pH 0.0 or with free energy 0.0 is an
+    optimum) -- and says 'Could not determine' exactly when it returned None"""
+    import propka.output as O
+    mol = H.molecule(options=H.Opts(window=(0.0, 14.0, 1.0), grid=(0.0, 14.0, 0.1)))
+
+    def pair(tag, lo, hi, lo2=None, hi2=None):
+        if not ctx.choice(tag + '_determined', [True, False]):
+            return (None, None)
+        return (ctx.real(tag + '_a', lo, hi), ctx.real(tag + '_b', lo if lo2 is None else lo2, hi if hi2 is None else hi2))
+    opt = pair('optimum', -2, 16, -50, 50)
+    r80 = pair('range80', -2, 16)
+    stab = pair('stability', -2, 16)
+    prof = [(0.0, ctx.real('dg0', -9, 9))]
+    mol.get_folding_profile = lambda conformation='AVR', reference='neutral', grid=None: (prof, opt, r80, stab)
+    markers.enable(ctx)
+    text = markers.text_of(O.get_folding_profile_section(mol, conformation='AVR', reference='neutral', window=(0.0, 14.0, 1.0)))
+    for tag, val, yes, no in (('optimum', opt, 'The pH of optimum stability is', 'Could not determine pH optimum'),
+                              ('range80', r80, 'The free energy is within 80 % of maximum', 'Could not determine pH values where the free energy'),
+                              ('stability', stab, 'The free energy is negative in the range', 'Could not determine the pH-range where the free')):
+        lines = [l for l in text.split('\n') if l.startswith(yes)]
+        if val[0] is None:
+            ctx.claim(tag + ':undetermined-said-so', no in text and not lines)
+        else:
+            ctx.claim(tag + ':stated-when-determined', len(lines) == 1 and no not in text, detail='%s = %r' % (tag, val))
+            if len(lines) == 1:
+                f = [x for x in markers.fields(ctx, lines[0]) if x[1] is not None or ctx.native]
+                if ctx.native:
+                    f = [x for x in f if abs(x[0] - 80) > 1e-9 and abs(x[0] - 298) > 1e-9][:2]
+                ctx.claim(tag + ':values-shown', len(f) >= 2 and bool(markers.shown(ctx, f[0][0], val[0], 1)) and bool(markers.shown(ctx, f[1][0], val[1], 1)),
+                          detail='%r' % (lines[0],))
+    return
+
+
 def mk_grid_fp(K):
     def body(ctx):
         """make_grid in IEEE double arithmetic: for a decimal grid
@@ -243,6 +278,10 @@ def obligations(tier):
     obs.append(Obligation('O2-profile-optimum-ranges', o_profile, code=['propka/molecular_container.py:MolecularContainer.get_folding_profile', 'propka/lib.py:make_grid'],
                           bounds='1, 3 or 5 grid points with free symbolic energies in [-50,50]', shims=['conformation energy method -> symbolic table'],
                           claim_doc='optimum = a minimal profile point; ranges = min/max pH of the points satisfying their predicate', max_paths=100000, shards=8))
+    obs.append(Obligation('O2-summary-lines', o_summary_lines, code=['propka/output.py:get_folding_profile_section'],
+                          bounds='optimum (pH in [-2,16], dG in [-50,50]), 80 % range and stability range each determined (symbolic values, 0.0 included) or None',
+                          shims=['MolecularContainer.get_folding_profile -> the symbolic tuple'],
+                          claim_doc='each of the three statements is printed with its values iff the quantity was determined; otherwise "Could not determine"', max_paths=2000))
     obs.append(Obligation('O3-grid-exact', o_grid_exact, code=['propka/lib.py:make_grid'], bounds='K in {0,1,4}; min in [-5,20], step in [0.01,5], max = min + (K+f)*step with f in [0,0.99] (exact reals)',
                           claim_doc='K+1 points min + i*step, none beyond max', max_paths=2000))
     # QF_FP queries are discharged by the cvc5 binary (z3 needs minutes per query)
